@@ -601,7 +601,7 @@ static inline char *safec_fmt_find_n(const char *fmt) {
             p++;
             continue;
         }
-        while (*p && strchr("-+ #0'I123456789$*.hlLqjzt", *p)) {
+        while (*p && strchr("-+ #0'I123456789$*.hlLqjztZm", *p)) {
             p++;
         }
         if (*p == 'n') {
@@ -623,7 +623,7 @@ static inline wchar_t *safec_wfmt_find_n(const wchar_t *fmt) {
             p++;
             continue;
         }
-        while (*p && wcschr(L"-+ #0'I123456789$*.hlLqjzt", *p)) {
+        while (*p && wcschr(L"-+ #0'I123456789$*.hlLqjztZm", *p)) {
             p++;
         }
         if (*p == L'n') {
